@@ -363,6 +363,7 @@ class Reducer:
         self.ctx = ctx
         self.defs = {}  # alias var index -> (Poly definition, assumption poly)
         self.defs2 = {}  # alias var index -> (factorised form from a stub contract, assumption poly)
+        self.sqdefs = {}  # var -> (P, h, rule index) with var^2 == P
         self.defs2_rule = {}  # alias var index -> index of the same contract equation in self.rules
         self.rules = []  # (h_normalised, [(m, mask, coeff)], derivation [Poly])
         self.unit = {}  # var -> assumption poly v^2 - 1   (sign-like variables)
@@ -409,6 +410,14 @@ class Reducer:
             hn, der = self.norm_units(h)
             if not hn.t:
                 continue
+            if a.tag in ("def-abs", "def-root"):
+                # v^2 == P : usable as an unfolding of v^2 when the search is stuck
+                pref = "a" if a.tag == "def-abs" else "r"
+                sq = [(m, c) for m, c in h.t.items() if len(m) == 1 and m[0][1] == 2 and abs(c) == 1 and ctx.vars[m[0][0]].kind == "aux" and ctx.vars[m[0][0]].name.startswith(pref) and m[0][0] not in self.sqdefs]
+                if sq:
+                    (m, c) = sq[-1]
+                    if all(m[0][0] not in [v for v, _ in mm] for mm in h.t if mm != m):
+                        self.sqdefs[m[0][0]] = (Poly({mm: -cc / c for mm, cc in h.t.items() if mm != m}), h.scale(1 / c), len(self.rules))
             mons = [(m, _mask(m), c) for m, c in hn.t.items() if m]
             if mons:
                 self.rules.append((hn, mons, [h] + der))
@@ -527,6 +536,36 @@ class Reducer:
                 break
             al2 = [v for v in p.vars() if v in self.defs2 and v not in tried2]
             al = al2 or [v for v in p.vars() if v in self.defs]
+            if not al and level < unfold_levels:
+                # unfold squares of abs / root symbols: v^2 -> P
+                sqv = [v for v in p.vars() if v in self.sqdefs and any(dict(t).get(v, 0) >= 2 for t in p.t)]
+                if sqv:
+                    for v in sqv:
+                        P, h, ri = self.sqdefs[v]
+                        disabled.add(ri)
+                        guard = 0
+                        changed = True
+                        while changed and guard < 4:
+                            changed = False
+                            guard += 1
+                            for t, c in list(p.t.items()):
+                                d = dict(t)
+                                e = d.get(v, 0)
+                                if e < 2:
+                                    continue
+                                d[v] = e - 2
+                                if d[v] == 0:
+                                    del d[v]
+                                q = tuple(sorted(d.items()))
+                                lem = h.mul_mono(q)
+                                p = p - lem.scale(c)
+                                used.append(lem)
+                                changed = True
+                                if len(p.t) > max_terms:
+                                    return p, used
+                    p, l3 = self.norm_units(p)
+                    used += l3
+                    continue
             if not al or level == unfold_levels:
                 break
             for v in al:
